@@ -154,9 +154,8 @@ where CL03<CS>: Scheme<PubKey = CL03PublicKey, PrivKey = CL03SecretKey>, CS::Has
             for key in ["range_proofs_commited_mi", "range_proofs_mi"] { if let Some(arr) = root[key].as_array() { for k in 0..arr.len() { let i = it.hidden.get(k).copied().unwrap_or(0); rps.push((format!("{}[{}]", key, k), vec!["CL03".into(), key.into(), k.to_string()], Integer::from(0), pow2(CS::lm) - 1u32, Some(it.m[i].clone()))); } } }
             let derived = |x: &Integer, a: &Integer, b: &Integer| -> Option<Vec<(String, Integer)>> {
                 let big_t = 2 * (128 + 40 + 1) + (b - a).complete().significant_bits();
-                let sq = Integer::from((b - a).complete().sqrt_ref());
-                let aa = pow2(big_t) * a - pow2(40 + 128 + big_t / 2 + 1) * &sq;
-                let bb = pow2(big_t) * b + pow2(40 + 128 + big_t / 2 + 1) * &sq;
+                let aa = pow2(big_t) * a;
+                let bb = pow2(big_t) * b;
                 let xa = pow2(big_t) * x - &aa; let xb = bb - pow2(big_t) * x;
                 if xa < 0 || xb < 0 { return None; }
                 let (xa1, xb1) = (Integer::from(xa.sqrt_ref()), Integer::from(xb.sqrt_ref()));
@@ -178,6 +177,7 @@ where CL03<CS>: Scheme<PubKey = CL03PublicKey, PrivKey = CL03SecretKey>, CS::Has
                         if i == j && op == "/" { continue; }
                         let v2 = if i == j { Integer::from(1) } else if op == "*" { sub[j].1.clone() } else { match sub[j].1.clone().invert(nn) { Ok(x) => x, Err(_) => continue } };
                         let p_ = (sub[i].1.clone() * v2) % nn;
+                        if p_ == 1 { continue; } // two copies of the same commitment (the proof of square repeats E_x_1): carries nothing
                         env.ctx.step();
                         for (k, (gt, ga)) in gy.iter().enumerate() {
                             if p_ == *gt && p_ != *ga {
